@@ -44,10 +44,11 @@ def run_variant(v):
             if s.count(old) != 1:
                 return dict(v, ok=False, got=f"edit anchor matches {s.count(old)} times in {rel}", out="", wall=time.time() - t0)
             s = s.replace(old, new)
-            try:
-                compile(s, p, "exec")
-            except SyntaxError as e:
-                return dict(v, ok=False, got=f"variant does not compile: {e}", out="", wall=time.time() - t0)
+            if rel.endswith(".py"):
+                try:
+                    compile(s, p, "exec")
+                except SyntaxError as e:
+                    return dict(v, ok=False, got=f"variant does not compile: {e}", out="", wall=time.time() - t0)
             open(p, "w").write(s)
         env = dict(os.environ, VERIF_REPO=d, VERIF_NO_EVIDENCE="1", PYTHONDONTWRITEBYTECODE="1")
         r = subprocess.run([os.path.join(VERIF, "check"), v["pid"], "--tier", v.get("tier", "quick")],
